@@ -289,6 +289,41 @@ def case_get(pp, loc_name):
     return run
 
 
+def wrapper_contract(rep, pp):
+    """Modular check of the two EquationSystem wrappers against the contract of shift_solution_values (proved above): the callee is
+    replaced by a recording stub; the wrapper must call it exactly once per atomic variable selected by `variables` (all variables
+    for None), on that variable's own data dictionary, with the wrapper's own storage location and the caller's max_index."""
+    import itertools as it
+
+    g1, g2 = pp.CartGrid([2, 1]), pp.CartGrid([1, 1])
+    for g in (g1, g2):
+        g.compute_geometry()
+    mdg = pp.MixedDimensionalGrid()
+    mdg.add_subdomains([g1, g2])
+    es = pp.ad.EquationSystem(mdg)
+    u = es.create_variables("u", subdomains=[g1, g2])
+    w = es.create_variables("w", subdomains=[g1])
+    atoms = {v: (v.name, id(mdg.subdomain_data(v.domain))) for v in es.variables}
+    selections = {"None (all variables)": (None, list(es.variables)), "[md-variable u]": ([u], list(u.sub_vars)), "[w]": ([w], list(w.sub_vars)),
+                  "['u'] by name": (["u"], list(u.sub_vars)), "[atomic u on the second grid]": ([u.sub_vars[1]], [u.sub_vars[1]]),
+                  "[] (nothing)": ([], [])}
+    real = pp.shift_solution_values
+    for wrapper, location in (("shift_time_step_values", pp.TIME_STEP_SOLUTIONS), ("shift_iterate_values", pp.ITERATE_SOLUTIONS)):
+        for (sel_name, (sel, expected)), depth in it.product(selections.items(), (None, 3)):
+            calls = []
+            pp.shift_solution_values = lambda name, data, loc, max_index=None: calls.append((name, id(data), loc, max_index))
+            try:
+                getattr(es, wrapper)(sel, max_index=depth) if sel is not None else getattr(es, wrapper)(max_index=depth)
+            finally:
+                pp.shift_solution_values = real
+            want = sorted((atoms[v][0], atoms[v][1], location, depth) for v in expected)
+            ok = sorted(calls, key=lambda c: (c[0], c[1])) == sorted(want, key=lambda c: (c[0], c[1]))
+            name = f"EquationSystem.{wrapper}(variables={sel_name}, max_index={depth}): shift_solution_values is called exactly once per selected atomic variable, on its own data, with this location and max_index"
+            rep.obligation(name, "discharged" if ok else "refuted", "Ps", "python-modular-call-check")
+            if not ok:
+                rep.violation(name, wrapper, inputs={"wrapper": wrapper, "variables": sel_name, "max_index": depth}, detail=f"calls {calls} expected {want}", confirmed=True)
+
+
 def window_lemma(rep):
     """Over the contracts: if shift(depth d) and then set(index 0, v) are applied to a window state that satisfies
     W(T):  forall i < min(d, T): M(i) = Hist(T-1-i)   (Hist(t) = value current at index 0 after step t),
@@ -492,6 +527,7 @@ def run(rep):
         rf, _ = run_case(rep, "shift_solution_values guards", case_shift_guards(pp))
         refuted += rf
     window_lemma(rep)
+    wrapper_contract(rep, pp)
     rep.trust(*sorted(shims.USED_MODELS))
     rep.trust("engine/cutpoint.py AST rewriting of the single for-loop of shift_solution_values (source re-read every run)")
     for name, ctx, r in refuted:
